@@ -30,22 +30,20 @@ def marker_ok(number, marker):
 
 
 def in_guard(number, pad_a, pad_b):
-    '''The guard of C09_normalize_float_classes for the pair of paddings.'''
-    sign, ip, fp, expo = number
+    '''The guard of C09_normalize_float_classes for the pair of paddings: a
+    mantissa with at least one digit, and equal paddings when an exponent
+    follows (zeros between a fraction and an exponent are never removed).'''
+    _sign, ip, fp, expo = number
     if not ip and not fp:
         return False
     if expo is not None:
-        if fp is not None and set(expo[1]) <= {'0'}:
-            return False
         return pad_a == pad_b
-    if fp is None:
-        return pad_a == pad_b == 0
-    return fp != '' or (pad_a <= 1 and pad_b <= 1)
+    return True
 
 
 def gen_number(rng, negative=None, wild=False):
-    '''A decimal number as a structured spelling; `wild` also gives the shapes
-    outside the guard (empty kept fraction, all-zero exponent).'''
+    '''A decimal number as a structured spelling; `wild` gives more of the
+    shapes that used to break (empty kept fraction, all-zero exponent).'''
     if negative is None:
         negative = rng.random() < 0.6
     sign = '-' if negative else rng.choice(['', '', '+'])
@@ -54,7 +52,7 @@ def gen_number(rng, negative=None, wild=False):
         fp = None
     else:
         fp = rng.choice(['5', '25', '05', '205', '1', '35', '7', '001'])
-        if wild and rng.random() < 0.5:
+        if rng.random() < (0.5 if wild else 0.15):
             fp = ''
     if ip == '' and not fp:
         ip = '4'
@@ -62,7 +60,7 @@ def gen_number(rng, negative=None, wild=False):
     if rng.random() < 0.4:
         esign = rng.choice(['-', '-', '+', ''])
         edig = rng.choice(['1', '2', '3', '02', '10', '1'])
-        if wild and rng.random() < 0.3:
+        if rng.random() < (0.3 if wild else 0.12):
             edig = rng.choice(['0', '00'])
         expo = (esign, edig)
     if ip in ('0', '') and fp is not None and set(fp) <= {'0'}:
@@ -79,8 +77,6 @@ def gen_spellings(rng, number, count, wild=False):
             pad = rng.choice([0, 0, 1, 2, 3])
             if number[3] is not None and not wild:
                 pad = 0
-            if number[2] == '' and not wild:
-                pad = rng.choice([0, 1])
         marker = rng.choice([m for m in MARKERS if marker_ok(number, m)])
         out.append((spell(number, pad, marker), pad, marker))
     return out
@@ -90,7 +86,8 @@ def random_token(rng, alphabet, maxlen):
     return ''.join(rng.choice(alphabet) for _ in range(rng.randint(0, maxlen)))
 
 
-DOCTESTS = [('1.0', '1.0'), ('-1', '-1'), ('7', '7'), ('1.23000', '1.23'),
+DOCTESTS = [('1.0', '1.0'), ('-1', '-1'), ('7', '7'), ('1.00', '1.0'),
+            ('1.23000', '1.23'),
             ('-1.23000', '-1.23'), ('-.23000', '-.23'), ('7', '7'),
             ('10', '10'), ('6.40875-2', '6.40875e-2'),
             ('6.40875+2', '6.40875e+2'), ('-6.40875-2', '-6.40875e-2'),
